@@ -27,6 +27,11 @@ impl Engine for BpEngine {
                 // srvclose=1: an extra idle channel is opened; the server closes it in the very moment the
                 // stall ends (its CloseOk is appended while the backlog is flushed)
                 let srvclose = opt("srvclose").is_some();
+                // consume=1: every publishing channel also has a consumer (the RPC-server shape)
+                let consume = opt("consume").is_some();
+                // close-during=1: Connection::close is called while the backlog is still buffered and the
+                // transport then takes it in small pieces
+                let close_during = opt("close-during").is_some();
                 let p = |s: &str| s.parse::<usize>().ok();
                 let (bound, high, low, threads, nmsg, msgsize, stall) = match (p(bound), p(high), p(low), p(threads), p(nmsg), p(msgsize), p(stall)) {
                     (Some(a), Some(b), Some(c), Some(d), Some(e), Some(f), Some(g)) => (a, b, c, d, e, f, g),
@@ -83,6 +88,17 @@ impl Engine for BpEngine {
                 };
                 let mut chans = chans;
                 let idle_chan = if srvclose { chans.pop() } else { None };
+                if consume {
+                    for ch in chans.iter() {
+                        match ch.basic_consume("q", amiquip::ConsumerOptions::default()) {
+                            Ok(c) => std::mem::forget(c),
+                            Err(e) => {
+                                stop.store(true, Ordering::SeqCst);
+                                return out.push(format!("consume err {}", err_token(&e)));
+                            }
+                        }
+                    }
+                }
                 // everything so far is on the wire; now the transport stalls
                 std::thread::sleep(Duration::from_millis(30));
                 peer.set_budget(Some(0));
@@ -144,6 +160,14 @@ impl Engine for BpEngine {
                 // the transport drains in bursts
                 let mut seed = 12345u64;
                 let t1 = Instant::now();
+                let mut closer = None;
+                if close_during {
+                    if let Some(c) = conn_slot.take() {
+                        closer = Some(std::thread::spawn(move || c.close()));
+                        // let the close request reach the I/O thread (the buffer is sealed behind the backlog)
+                        std::thread::sleep(Duration::from_millis(150));
+                    }
+                }
                 if let Some(k) = eintr {
                     peer.hiccup_write_after(k, std::io::ErrorKind::Interrupted);
                 }
@@ -165,7 +189,7 @@ impl Engine for BpEngine {
                 loop {
                     seed = seed.wrapping_mul(6364136223846793005).wrapping_add(1442695040888963407);
                     if !release_all {
-                        peer.grant(1 + (seed >> 33) as usize % 60000);
+                        peer.grant(1 + (seed >> 33) as usize % if close_during { 700 } else { 60000 });
                     }
                     std::thread::sleep(Duration::from_millis(2));
                     if handles.iter().all(|h| h.is_finished()) || t1.elapsed() > Duration::from_secs(20) {
@@ -254,6 +278,21 @@ impl Engine for BpEngine {
                         detail = format!("channel {}: {} messages on the wire, first deviation at index {:?}", c, per[c].len(), per[c].iter().zip(want.iter()).position(|(a, b)| a != b));
                         break;
                     }
+                }
+                if let Some(c) = closer {
+                    let t4 = Instant::now();
+                    while !c.is_finished() && t4.elapsed() < Duration::from_secs(8) {
+                        std::thread::sleep(Duration::from_millis(10));
+                    }
+                    out.push(if c.is_finished() {
+                        match c.join() {
+                            Ok(Ok(())) => "close ok".to_string(),
+                            Ok(Err(e)) => format!("close err {}", err_token(&e)),
+                            Err(_) => "close PANIC".to_string(),
+                        }
+                    } else {
+                        "close hung".to_string()
+                    });
                 }
                 out.push(format!("wire ok={} {}", if ok { "t" } else { "f" }, detail));
                 if let Some(ic) = idle_chan {
